@@ -526,7 +526,10 @@ class FileStorage(Storage):
         except IOError:
             files = []
 
-        return files
+        # (Files only: the temporary storage of an open writer is a directory
+        # in here)
+        return [name for name in files
+                if not os.path.isdir(os.path.join(self.folder, name))]
 
     def file_exists(self, name):
         return os.path.exists(self._fpath(name))
